@@ -91,6 +91,8 @@ def wire_packets(kind: str, msgs, rng: random.Random, with_bad: bool = True):
                 pk.append((bytes([0x88, 0x09, 0x01, 0x02, 0x03] + [i] * 8), "unknown-pgn"))
                 pk.append((bytes([0x88]) + (0x09F11200 + i).to_bytes(4, "big") + bytes([1, 0xFD, 0xFF, 0, 0, 0, 0, 0xFC]), "out-of-range"))
                 pk.append((bytes([0x81]) + (0x09F80500 + i).to_bytes(4, "big") + bytes([0x20]) + bytes(7), "truncated-fast"))
+                # PGN 65240 (ISO commanded address): the generated codec refuses it with a plain Exception
+                pk.append((bytes([0x88]) + (0x18FED800 + i).to_bytes(4, "big") + bytes([1, 2, 3, 4, 5, 6, 7, 8]), "unsupported-raises"))
         elif kind == "waveshare":
             for p in enc.encode_usb(m):
                 pk.append((p, "valid"))
@@ -99,6 +101,7 @@ def wire_packets(kind: str, msgs, rng: random.Random, with_bad: bool = True):
                 # range, a fast-packet frame without its length byte - right behind a packet that decodes
                 pk.append((usb_packet(0x09F11200 + i, bytes([1, 0xFD, 0xFF, 0, 0, 0, 0, 0xFC])), "out-of-range"))
                 pk.append((usb_packet(0x09F80500 + i, bytes([0x20])), "truncated-fast"))
+                pk.append((usb_packet(0x18FED800 + i, bytes([1, 2, 3, 4, 5, 6, 7, 8])), "unsupported-raises"))
             if with_bad and i % 2 == 0:
                 bad = bytearray(enc.encode_usb(m)[0])
                 bad[12] ^= 0x01                      # checksum no longer matches
@@ -114,6 +117,7 @@ def wire_packets(kind: str, msgs, rng: random.Random, with_bad: bool = True):
                 pk.append((b"garbage line\r\n", "malformed"))
                 pk.append((b"\xff\xfe\x80 not utf-8 \xc3\r\n", "malformed"))
                 pk.append((b"00:00:00.000 R 09F11299 ZZ\r\n", "malformed"))
+                pk.append((b"00:00:00.000 R %08X 01 02 03 04 05 06 07 08\r\n" % (0x18FED800 + i), "unsupported-raises"))
                 pk.append((b"\r\n", "empty"))
         else:
             pk.append((b"A00000%d.000 " % (i % 10) + enc.encode_actisense(m).encode() + b"\r\n", "valid"))
@@ -121,6 +125,7 @@ def wire_packets(kind: str, msgs, rng: random.Random, with_bad: bool = True):
                 pk.append((b"$GPGGA,not,n2k\r\n", "malformed"))
                 pk.append((b"A000001.000 \xff\xfe\x80 not utf-8 \xc3\r\n", "malformed"))
                 pk.append((b"A000001.000 09FF7 1F513\r\n", "malformed"))
+                pk.append((b"A000001.000 %05X 0FED8 0102030405060708\r\n" % ((i << 12) | (255 << 4) | 6), "unsupported-raises"))
                 pk.append((b"\n", "empty"))
         if kind == "actisense" and i == 1 and isinstance(msgs[i], tuple):
             # a whole fast-packet message of 134 bytes on one line (product information): 290 characters
